@@ -84,6 +84,17 @@ def shared_templates(pid, repo, ctx):
         ctx.ok(rule, '', '', 0, f'T-ARGROLE: {n} resolved call sites in the anchored files pass every named argument in the position of the parameter it is named after',
                construct=f'{n} call sites')
     ctx.analysed['call_sites'] = ctx.analysed.get('call_sites', 0) + n
+    # T-SHARED for default arguments: one mutable object per definition, shared by all calls
+    from . import sharedstate
+    files = {p_ for p_ in anchor_files(pid) if repo.has_module(p_) and '/tests/' not in p_}
+    hits, n_def = sharedstate.mutable_default_hits(repo, files)
+    rule_s = f'R{int(pid[1:])}.S'
+    for p_, q_, node, msg in hits:
+        ctx.violation(rule_s, p_, q_, node, msg, construct=ast_src(node))
+    if not hits:
+        nfun = sum(1 for p_, _q, _f in repo.all_functions() if p_ in files)
+        ctx.ok(rule_s, '', '', 0, f'T-SHARED: none of the {nfun} functions in the anchored files keeps or modifies a mutable default argument ({n_def} mutable defaults present)',
+               construct=f'{nfun} functions')
 
 
 def ast_src(node):
